@@ -607,8 +607,9 @@ def check_provenance(ctx):
     from ..core import local_defs, resolve_expr
 
     pdefs = local_defs(pa.node)
+    olist_ = _sc.scaffold_orientation_list(pa)
     for n in walk_own(pa.node):
-        if isinstance(n, ast.If) and ".count(" in resolve_expr(pa.node, n.test, defs=pdefs):
+        if isinstance(n, ast.If) and (".count(" in resolve_expr(pa.node, n.test, defs=pdefs) or (olist_ is not None and olist_ in {x.id for x in ast.walk(n.test) if isinstance(x, ast.Name)})):
             # the one whose branches assign the key variables
             assigned = {norm(t) for st in walk_stmts(n.body) if isinstance(st, ast.Assign) for t in st.targets}
             if len(assigned) >= 2 and n.orelse:
@@ -632,13 +633,25 @@ def check_provenance(ctx):
 
     rows = []
     bad = None
+    by_lists = None
     for env, scale in ordtab.weak_orderings(["fwd", "rev"], [0]):
         if env["fwd"] < 0 or env["rev"] < 0:
             continue
         try:
             v = Evaluator(env, atom_of, scale).truth(branch.test)
         except Unsupported as e:
-            raise AnalysisError("R08.2", where, f"orientation-majority test outside the fragment: {e}")
+            # not a function of the two counts alone: evaluate the test on every list of scaffold orientations up to
+            # length four (a finite domain that contains a witness for any first/last/majority confusion)
+            if olist_ is None:
+                raise AnalysisError("R08.2", where, f"orientation-majority test outside the fragment: {e}")
+            by_lists = []
+            try:
+                for L_ in _sc.orientation_lists(4):
+                    by_lists.append((L_, bool(_sc.eval_list_test(branch.test, olist_, L_, pdefs))))
+            except _sc.ListUnsupported as e2:
+                raise AnalysisError("R08.2", where, f"orientation-majority test outside the fragment: {e} / {e2}")
+            rows = []
+            break
         rows.append((env, v))
     # which branch is the reverse one: the one that reads the last path element / column 6 and 8
     body_src = norm(branch.body)
@@ -677,6 +690,14 @@ def check_provenance(ctx):
         if want_rev != got_rev:
             bad = {"count('>')": env["fwd"] // 1, "count('<')": env["rev"] // 1, "reverse_branch_taken": got_rev}
             break
+    for L_, v in by_lists or []:
+        want_rev = L_.count("<") > L_.count(">")
+        got_rev = v == rev_when
+        if want_rev != got_rev:
+            bad = {"scaffold_orientations": "".join(L_), "reverse_branch_taken": got_rev, "required": want_rev}
+            break
+    if by_lists:
+        rows = by_lists
     ctx.check(
         bad is None,
         "R08.2",
